@@ -671,7 +671,7 @@ class BGP(protocol.Protocol):
 
     def update_send_version(self, peer_ip, attr, nlri, withdraw):
         if 14 in attr:
-            if attr[14]['afi_safi'] == [1, 133]:
+            if list(attr[14]['afi_safi']) == [1, 133]:
                 LOG.info("send flowspec")
                 for prefix in attr[14]['nlri']:
                     value = copy.deepcopy(attr)
@@ -694,7 +694,7 @@ class BGP(protocol.Protocol):
                         else:
                             self.send_version['flowspec'] += 1
                             self.flowspec_send_dict[str(key)] = value
-            elif attr[14]['afi_safi'] == [1, 73]:
+            elif list(attr[14]['afi_safi']) == [1, 73]:
                 LOG.info('send sr')
                 key = "{"
                 for k in sorted(attr[14]['nlri'].keys()):
@@ -713,7 +713,7 @@ class BGP(protocol.Protocol):
                     else:
                         self.send_version['sr_policy'] += 1
                         self.sr_send_dict[str(key)] = attr
-            elif attr[14]['afi_safi'] == [1, 128]:
+            elif list(attr[14]['afi_safi']) == [1, 128]:
                 LOG.info("send mpls_vpn")
                 for prefix in attr[14]['nlri']:
                     value = copy.deepcopy(attr)
@@ -738,7 +738,7 @@ class BGP(protocol.Protocol):
                             self.mpls_vpn_send_dict[str(key)] = value
         # flowspec sr mpls_vpn withdraw
         if 15 in attr:
-            if attr[15]['afi_safi'] == [1, 133]:
+            if list(attr[15]['afi_safi']) == [1, 133]:
                 LOG.info("withdraw flowspec")
                 for prefix in attr[15]['withdraw']:
                     key = "{"
@@ -754,7 +754,7 @@ class BGP(protocol.Protocol):
                         del self.flowspec_send_dict[str(key)]
                     else:
                         LOG.info("Do not have %s in send flowspec dict" % key)
-            elif attr[15]['afi_safi'] == [1, 73]:
+            elif list(attr[15]['afi_safi']) == [1, 73]:
                 LOG.info('withdraw sr')
                 key = "{"
                 for k in sorted(attr[15]['withdraw'].keys()):
@@ -769,7 +769,7 @@ class BGP(protocol.Protocol):
                     del self.sr_send_dict[str(key)]
                 else:
                     LOG.info("Do not have %s in send flowspec dict" % key)
-            elif attr[15]['afi_safi'] == [1, 128]:
+            elif list(attr[15]['afi_safi']) == [1, 128]:
                 LOG.info("withdraw mpls_vpn")
                 for prefix in attr[15]['withdraw']:
                     key = "{"
@@ -788,7 +788,7 @@ class BGP(protocol.Protocol):
 
     def update_receive_verion(self, attr, nlri, withdraw):
         if 14 in attr:
-            if attr[14]['afi_safi'] == [1, 133]:
+            if list(attr[14]['afi_safi']) == [1, 133]:
                 LOG.info("recieve flowspec send")
                 for prefix in attr[14]['nlri']:
                     value = copy.deepcopy(attr)
@@ -811,9 +811,9 @@ class BGP(protocol.Protocol):
                         else:
                             self.receive_version['flowspec'] += 1
                             self.flowspec_receive_dict[str(key)] = value
-            elif attr[14]['afi_safi'] == [1, 73]:
+            elif list(attr[14]['afi_safi']) == [1, 73]:
                 LOG.info('recieve sr send')
-            elif attr[14]['afi_safi'] == [1, 128]:
+            elif list(attr[14]['afi_safi']) == [1, 128]:
                 LOG.info("receive send mpls_vpn")
                 for prefix in attr[14]['nlri']:
                     value = copy.deepcopy(attr)
@@ -838,7 +838,7 @@ class BGP(protocol.Protocol):
                             self.mpls_vpn_receive_dict[str(key)] = value
         # receive flowspec sr mpls withdraw
         if 15 in attr:
-            if attr[15]['afi_safi'] == [1, 133]:
+            if list(attr[15]['afi_safi']) == [1, 133]:
                 LOG.info("recieve flowspec withdraw")
                 for prefix in attr[15]['withdraw']:
                     key = "{"
@@ -854,9 +854,9 @@ class BGP(protocol.Protocol):
                         del self.flowspec_receive_dict[str(key)]
                     else:
                         LOG.info("Do not have %s in receive flowspec dict" % prefix)
-            elif attr[15]['afi_safi'] == [1, 73]:
+            elif list(attr[15]['afi_safi']) == [1, 73]:
                 LOG.info('recieve sr withdraw')
-            elif attr[15]['afi_safi'] == [1, 128]:
+            elif list(attr[15]['afi_safi']) == [1, 128]:
                 LOG.info("recieve withdraw mpls_vpn")
                 for prefix in attr[15]['withdraw']:
                     key = "{"
